@@ -329,20 +329,41 @@ def run_oneport(chk, drv, L, state):
         state['counterexamples'] += 1
         chk.counterexample(key, replay, what)
 
-    def lc_quantities(net, s, route):
-        """[Z, Y, Voc, Isc] from Lcapy; entries None (not finite) or 'error:<Type>'"""
+    import signal
+
+    class _Timeout(Exception):
+        pass
+
+    def _alarm(signum, frame):
+        raise _Timeout()
+
+    limit = 20 if quick else 45
+
+    def lc_quantities(net, s, route, only_immittance=False):
+        """[Z, Y, Voc, Isc] from Lcapy; entries None (not finite), 'error:<Type>' or 'timeout'"""
         out = []
         getters = {
             'algebra': [lambda: net.Z, lambda: net.Y, lambda: net.Voc, lambda: net.Isc],
             'cct': [lambda: net.cct.impedance(1, 0), lambda: net.cct.admittance(1, 0),
                     lambda: net.cct.Voc(1, 0), lambda: net.cct.Isc(1, 0)],
         }[route]
-        for g in getters:
+        for gi, g in enumerate(getters):
+            if only_immittance and gi >= 2:
+                out.append('skipped')
+                continue
+            old = signal.signal(signal.SIGALRM, _alarm)
+            signal.setitimer(signal.ITIMER_REAL, limit)
             try:
                 with contextlib.redirect_stdout(io.StringIO()):
                     out.append(L.at(g(), s))
+            except _Timeout:
+                out.append('timeout')
+                chk.count('lcapy-timeout', route + '.' + QN[gi])
             except Exception as e:   # noqa
                 out.append('error:%s' % type(e).__name__)
+            finally:
+                signal.setitimer(signal.ITIMER_REAL, 0)
+                signal.signal(signal.SIGALRM, old)
         return out
 
     import time as _time
@@ -392,9 +413,12 @@ def run_oneport(chk, drv, L, state):
         chk.sample({'tree': toks, 's': fstr(s), 'line': line, 'model': [None if v is None else fstr(v) for v in mod]})
 
         _tick('before ' + toks)
-        alg = lc_quantities(net, s, 'algebra')
+        # outside the precondition (an ideal source shunted / in series) only Z and Y are looked at:
+        # Voc / Isc go through nodal analysis of an ill-posed circuit, which SymPy may chew on for minutes
+        outside = not (tOK or nOK)
+        alg = lc_quantities(net, s, 'algebra', only_immittance=outside)
         _tick('algebra ' + toks)
-        cct = lc_quantities(net, s, 'cct')
+        cct = ['skipped'] * 4 if outside else lc_quantities(net, s, 'cct')
         _tick('cct ' + toks)
         replay = {'input': {'tree': toks, 's': fstr(s), 'lcapy_expr': str(net)},
                   'lcapy': {'algebra': [_f(v) for v in alg], 'cct': [_f(v) for v in cct]},
@@ -428,6 +452,8 @@ def run_oneport(chk, drv, L, state):
             if isinstance(a, str) or isinstance(c, str) or a is None or c is None:
                 if isinstance(c, str) or c is None:
                     chk.count('lcapy-error', 'cct.%s:%s' % (q, c))
+                if c == 'timeout' or a == 'timeout':
+                    continue
                 if (isinstance(c, str) or c is None) and not (isinstance(a, str) or a is None):
                     finding({'kind': 'oneport', 'cause': 'cct-route-fails', 'quantity': q, 'has_ic': has_ic},
                             replay, 'net.cct-based %s raises / is not finite although the network satisfies the precondition' % q)
